@@ -49,6 +49,16 @@ CHAINS = [
 ]
 
 
+def _match_polarity(test: ast.AST) -> bool:
+    """Label of the edge on which the alternative is selected: True for `D == x`, False for `not (D == x)` and `D != x`."""
+    pol = True
+    while isinstance(test, ast.UnaryOp) and isinstance(test.op, ast.Not):
+        test, pol = test.operand, not pol
+    if isinstance(test, ast.Compare) and len(test.ops) == 1 and isinstance(test.ops[0], (ast.NotEq, ast.IsNot, ast.NotIn)):
+        pol = not pol
+    return pol
+
+
 def chain_falls_through(func: FuncInfo, disc: set[str]) -> tuple[int, list[int], bool]:
     """(#alternatives, their lines, True if the all-alternatives-false path reaches the normal exit)."""
     cfg = util.cfg_of(func)
@@ -60,9 +70,10 @@ def chain_falls_through(func: FuncInfo, disc: set[str]) -> tuple[int, list[int],
                 tests.append(n)
     h = nx.DiGraph()
     h.add_nodes_from(cfg.g.nodes)
+    match_edge = {n: _match_polarity(cfg.g.nodes[n]["ast"]) for n in tests}
     for u, v, dd in cfg.g.edges(data=True):
-        if u in tests and dd.get("label") is True:
-            continue
+        if u in tests and dd.get("label") is match_edge[u]:
+            continue   # the edge taken when this alternative matches
         h.add_edge(u, v)
     falls = nx.has_path(h, ENTRY, EXIT)
     lines = sorted(cfg.g.nodes[n]["ast"].lineno for n in tests)
